@@ -254,6 +254,23 @@ def build_queries(facts):
                 if mi.get('fn') == fn and mi['name'] == name:
                     site = z3.And(eff, zcfg(mi['cfg']))
                     qs.append(dict(kind='let', where=f"{f['path']}:{mi['line']}", what=f'local `{name}` used (inside a macro) where no cfg-gated `let {name}` is compiled', formula=z3.And(site, z3.Not(defined), SOME)))
+        # 7. a parameter or local that is only referred to under some cfgs is unused (warning) under the others
+        by_fn = {}
+        for b in f['bindings']:
+            if b['name'].startswith('_') or b.get('allow_unused') or b['name'] in ('self',):
+                continue
+            by_fn.setdefault((b.get('fn'), b['name']), []).append(b)
+        for (fn, name), bs in by_fn.items():
+            if fn is None:
+                continue
+            uses = [zcfg(p['cfg']) for p in f['paths'] if p.get('fn') == fn and p['segments'] == [name]]
+            uses += [zcfg(mi['cfg']) for mi in f['macro_idents'] if mi.get('fn') == fn and mi['name'] == name]
+            if not uses or all(not p_['cfg'] for p_ in f['paths'] if p_.get('fn') == fn and p_['segments'] == [name]) and not any(mi['cfg'] for mi in f['macro_idents'] if mi.get('fn') == fn and mi['name'] == name):
+                continue     # used unconditionally (or never mentioned: a pattern the scanner cannot see) — nothing to decide
+            used = z3.Or(uses)
+            for b in bs:
+                qs.append(dict(kind='unused-variable', where=f"{f['path']}:{b['line']}", what=f'`{name}` in fn {fn} is bound but only referred to under some feature subsets (unused-variable warning under the others)',
+                               formula=z3.And(eff, zcfg(b['cfg']), z3.Not(used), SOME)))
         # 5. imports used whenever compiled (only for names that are referred to explicitly somewhere)
         for name, lst in facts.imports.get(m, {}).items():
             occ = [zcfg(p['cfg']) for p in f['paths'] if p['segments'] and nm(p['segments'][0]) == name]
